@@ -14,6 +14,10 @@ def RdRes.toRes (skip : Bool) : RdRes → RRes RErr
   | .fail e => .fail e
   | .nofuel => .stuck
 
+/-- `Release(e error)`: the Go body never looks at its argument — whatever the caller passes, the
+    unread bytes stay (Model/Reader's `Rd.release` is `Release`'s body) -/
+def Rd.releaseE (r : Rd) (_e : Option RErr) : Rd := r.release
+
 def Rd.step (r : Rd) : ROp → RRes RErr × Rd
   | .next n => ((r.next n).1.toRes false, (r.next n).2)
   | .peek n => ((r.peek n).1.toRes false, (r.peek n).2)
@@ -22,7 +26,7 @@ def Rd.step (r : Rd) : ROp → RRes RErr × Rd
     match (r.readBinary n).1 with
     | none => (.stuck, (r.readBinary n).2)
     | some x => (.rb x.1 x.2.1 x.2.2, (r.readBinary n).2)
-  | .release => (.done, r.release)
+  | .release e => (.done, r.releaseE e)
   | .readLen => (.len r.readLen, r)
 
 /-- the reports of an op list, in order, with the final state -/
